@@ -26,14 +26,24 @@ pub fn get_locks_unsorted<L: Lockable>(data: &L) -> Vec<&dyn RawLock> {
 /// returns `true` if the sorted list contains a duplicate
 #[must_use]
 pub fn ordered_contains_duplicates(l: &[&dyn RawLock]) -> bool {
-	if l.is_empty() {
-		// Return early to prevent panic in the below call to `windows`
+	// A zero-sized entry (a collection which does not contain any locks) does
+	// not own its address: it can sit at the same address as another empty
+	// collection, or as the lock next to it, without being the same lock. There
+	// is nothing to lock in it, so it is left out of the comparison.
+	let mut locks = l.iter().filter(|lock| std::mem::size_of_val(**lock) != 0);
+	let Some(mut previous) = locks.next() else {
 		return false;
+	};
+
+	for lock in locks {
+		// NOTE: addr_eq is necessary because eq would also compare the v-table pointers
+		if std::ptr::addr_eq(*previous, *lock) {
+			return true;
+		}
+		previous = lock;
 	}
 
-	l.windows(2)
-		// NOTE: addr_eq is necessary because eq would also compare the v-table pointers
-		.any(|window| std::ptr::addr_eq(window[0], window[1]))
+	false
 }
 
 /// Lock a set of locks in the given order. It's UB to call this without a `ThreadKey`
